@@ -191,7 +191,7 @@ def check_once(reg, c, raw_args, variants=("compiled", "py_func")):
             if bool(eval(compile_expr(src), g)):
                 fails.append({"clause": "%s.raises.%s.whenever" % (c.name, exc), "site": c.key + " [%s]" % vname,
                               "detail": {"args": jsonable(raw_args), "returned": jsonable(result)}})
-        for name, src in c.ensures.items():
+        for name, src in list(c.ensures.items()) + list(c.assumed.items()) + list(c.rt_only.items()):
             try:
                 ok = bool(eval(compile_expr(src), g))
             except (IndexError, KeyError, ZeroDivisionError) as e:
